@@ -70,23 +70,34 @@ def main():
         sid, rca == 0, rc0, rc1, len(missing), 'KEPT' if ok else 'REJECTED'))
     # ---- run the checks against it
     meta['checks'] = {}
+    scratch_run = os.environ.get('SEED_SCRATCH')
     if ok:
-        st, _ = sh(['git', '-C', '/repo', 'status', '--porcelain'])
-        assert _ .strip() == '', '/repo is not clean'
+        target = '/repo'
+        envx = dict(os.environ, SEEDTEST='1')
+        if scratch_run:     # run against a scratch worktree instead of /repo (lets other checks use /repo meanwhile)
+            target = '/tmp/mut/run_' + sid
+            sh(['git', '-C', '/repo', 'worktree', 'remove', '--force', target])
+            sh(['git', '-C', '/repo', 'worktree', 'add', '-q', '--detach', target, 'HEAD'])
+            envx['VERIF_REPO'] = target
+            envx['VERIF_WORK'] = 'seed_' + sid
+        st, _ = sh(['git', '-C', target, 'status', '--porcelain'])
+        assert _ .strip() == '', target + ' is not clean'
         try:
-            rc, out = sh(['git', '-C', '/repo', 'apply', patch])
+            rc, out = sh(['git', '-C', target, 'apply', patch])
             assert rc == 0, out
             for ck in checks:
                 t0 = time.time()
-                rc, out = sh([os.path.join(VERIF, 'check'), ck, '--tier', 'quick'], cwd=VERIF,
-                             env=dict(os.environ, SEEDTEST='1'))
+                rc, out = sh([os.path.join(VERIF, 'check'), ck, '--tier', 'quick'], cwd=VERIF, env=envx)
                 viol = [l for l in out.splitlines() if l.startswith('VIOLATION')]
                 meta['checks'][ck] = {'exit': rc, 'violation_lines': viol[:3], 'wall_s': round(time.time() - t0, 1),
                                       'tail': out.splitlines()[-3:]}
                 print('  check %s on %s: exit %d (%s) %.0fs' % (ck, sid, rc, 'CAUGHT' if rc == 1 else 'missed' if rc == 0 else 'MACHINERY', time.time() - t0))
         finally:
-            sh(['git', '-C', '/repo', 'checkout', '--', '.'])
-            sh(['git', '-C', '/repo', 'clean', '-fdq', 'sismic'])
+            if scratch_run:
+                sh(['git', '-C', '/repo', 'worktree', 'remove', '--force', target])
+            else:
+                sh(['git', '-C', '/repo', 'checkout', '--', '.'])
+                sh(['git', '-C', '/repo', 'clean', '-fdq', 'sismic'])
     meta['caught_by'] = [k for k, v in meta['checks'].items() if v['exit'] == 1]
     dst = os.path.join(VERIF, 'seeded', sid)
     if ok:
@@ -96,7 +107,7 @@ def main():
         if os.path.exists(notes):
             shutil.copy(notes, os.path.join(dst, 'notes.txt'))
         meta['ran'] = ['scratch worktree: demo.py without/with patch, pinned test suite with patch',
-                       '/repo with patch applied: ' + ', '.join('./check %s --tier quick' % c for c in checks)]
+                       ('scratch worktree (VERIF_REPO)' if scratch_run else '/repo') + ' with patch applied: ' + ', '.join('./check %s --tier quick' % c for c in checks)]
         with open(os.path.join(dst, 'meta.json'), 'w') as f:
             json.dump(meta, f, indent=1)
     return 0
